@@ -286,21 +286,22 @@ var props = map[string]propCfg{
 		Quick: withOnly([]hrun{
 			{Harness: "JSONBytes", Params: P("N", 0)}, {Harness: "JSONBytes", Params: P("N", 1)}, {Harness: "JSONBytes", Params: P("N", 2)}, {Harness: "JSONBytes", Params: P("N", 3)}, {Harness: "JSONBytes", Params: P("N", 4)}, {Harness: "JSONBytes", Params: P("N", 5)},
 			{Harness: "JSONDoc", Params: P("D", 0, "LITE", 1)},
+			{Harness: "JSONDoc", Params: P("D", 0, "LITE", 1, "RB", 1, "BSHAPE", 1)},
 		}, nil, true),
 		Thorough: withOnly([]hrun{
 			{Harness: "JSONBytes", Params: P("N", 0)}, {Harness: "JSONBytes", Params: P("N", 1)}, {Harness: "JSONBytes", Params: P("N", 2)}, {Harness: "JSONBytes", Params: P("N", 3)}, {Harness: "JSONBytes", Params: P("N", 4)}, {Harness: "JSONBytes", Params: P("N", 5)}, {Harness: "JSONBytes", Params: P("N", 6)},
-			{Harness: "JSONDoc", Params: P("D", 0)}, {Harness: "JSONDoc", Params: P("D", 1, "LITE", 1), Seconds: 1200},
+			{Harness: "JSONDoc", Params: P("D", 0)}, {Harness: "JSONDoc", Params: P("D", 0, "RB", 1, "BSHAPE", 1)}, {Harness: "JSONDoc", Params: P("D", 1, "LITE", 1), Seconds: 1200},
 		}, nil, true),
-		Bounds:  "all byte strings of length <= 5 (quick) / 6 (thorough) decoded into an Expression; all compact documents {left?, operator?, right?, distance/power/boundaries/extra?} whose members are strings of 0-2 symbolic bytes, numbers, null, true, arrays, range-boundary objects, wrongly typed values, operator names from the table or arbitrary 2-byte strings or a number (nested objects to depth 1 in thorough); decoded expressions that validate go through String, %#v, Marshal, Render, RenderParam",
+		Bounds:  "all byte strings of length <= 5 (quick) / 6 (thorough) decoded into an Expression; all compact documents {left?, operator?, right?, distance/power/boundaries/extra?} whose members are strings of 0-2 symbolic bytes, numbers, null, true, arrays, range-boundary objects (complete, without inclusive, or with min or max occurring only below another member), wrongly typed values, operator names from the table or arbitrary 2-byte strings or a number (nested objects to depth 1 in thorough); decoded expressions that validate go through String, %#v, Marshal, Render, RenderParam",
 		Outside: "encoding/json replaced by the stand-in (see C12); object keys with non-ASCII bytes (cut); documents deeper than the bound; white space between tokens beyond what the byte tier generates",
 	},
 	"C14": {
 		Quick: []hrun{
-			{Harness: "Purity", Params: P("SRC", 0, "D", 1, "LEAVES", 1, "DF", 0)}, {Harness: "Purity", Params: P("SRC", 0, "D", 1, "LEAVES", 1, "DF", 1)},
+			{Harness: "Purity", Params: P("SRC", 0, "D", 1, "LEAVES", 8, "DF", 0)}, {Harness: "Purity", Params: P("SRC", 0, "D", 1, "LEAVES", 8, "DF", 1)},
 			{Harness: "Purity", Params: P("SRC", 1, "K", 2, "DF", 0)},
 		},
 		Thorough: []hrun{
-			{Harness: "Purity", Params: P("SRC", 0, "D", 1, "LEAVES", 1, "DF", 0)}, {Harness: "Purity", Params: P("SRC", 0, "D", 1, "LEAVES", 1, "DF", 1)},
+			{Harness: "Purity", Params: P("SRC", 0, "D", 1, "LEAVES", 8, "DF", 0)}, {Harness: "Purity", Params: P("SRC", 0, "D", 1, "LEAVES", 8, "DF", 1)},
 			{Harness: "Purity", Params: P("SRC", 0, "D", 2, "LEAVES", 0, "DF", 0)}, {Harness: "Purity", Params: P("SRC", 0, "D", 2, "LEAVES", 0, "DF", 1)},
 			{Harness: "Purity", Params: P("SRC", 1, "K", 2, "DF", 0)}, {Harness: "Purity", Params: P("SRC", 1, "K", 3, "DF", 0)},
 		},
